@@ -39,6 +39,19 @@ def gen_c03_io():
             rows.append('(%s, (%s, (%s, (%s, %s))))' % (blit(fmt), 'true' if has_sniffer else 'false', 'true' if binary else 'false',
                                                        'true' if has_ext else 'false', _strlist(exts or [], 'extensions')))
         out.append('Definition PLUGINS_%s : list (str * (bool * (bool * (bool * list str)))) :=\n  [%s].' % (what, ';\n   '.join(rows)))
+    # which reader / writer functions every plugin offers: (fmt, (read_, (iter_, (write_, append_)))) for sequences,
+    # (fmt, (read_fts_, (false, (write_fts_, false)))) for features  (main.py read / iter_ / write / read_fts / write_fts dispatch)
+    for what in ('seqs', 'fts'):
+        need(set(U.FMTS_ALL[what]) == set(U.EPS[what].names), 'FMTS_ALL[%s] is not the set of entry points' % what)
+        rows = []
+        for fmt in U.FMTS_ALL[what]:
+            module = U.EPS[what][fmt].load()
+            if what == 'seqs':
+                flags = [hasattr(module, p + fmt) for p in ('read_', 'iter_', 'write_', 'append_')]
+            else:
+                flags = [hasattr(module, 'read_fts_' + fmt), False, hasattr(module, 'write_fts_' + fmt), False]
+            rows.append('(%s, (%s, (%s, (%s, %s))))' % ((blit(fmt),) + tuple('true' if x else 'false' for x in flags)))
+        out.append('Definition SUPPORT_%s : list (str * (bool * (bool * (bool * bool)))) :=\n  [%s].' % (what, ';\n   '.join(rows)))
     out.append('Definition ARCHIVE_EXTS : list str := %s.' % _strlist(U.ARCHIVE_EXTS, 'ARCHIVE_EXTS'))
     need(M.ARCHIVE_EXTS is U.ARCHIVE_EXTS, 'main.py no longer uses util.ARCHIVE_EXTS')
     # tabular tables
